@@ -45,7 +45,7 @@ type Reg struct {
 
 // Op is one client call.
 type Op struct {
-	K       string // set | del | get | setnil (SetCF with nil value = delete)
+	K       string // set | del | get | setnil (SetCF with nil value = delete) | setempty (empty non-nil value)
 	R       int    // register index
 	Sz      int    // value size for set
 	PauseUS int    // think time before the call
@@ -152,7 +152,7 @@ func gen(t *rapid.T) Case {
 		c.Fill = rapid.IntRange(5, 40).Draw(t, "fill")
 	}
 	nw := rapid.IntRange(3, 6).Draw(t, "workers")
-	kinds := []string{"set", "set", "set", "set", "set", "del", "setnil", "get", "get", "get", "get", "get"}
+	kinds := []string{"set", "set", "set", "set", "set", "del", "setnil", "setempty", "get", "get", "get", "get", "get"}
 	total := 0
 	for w := 0; w < nw; w++ {
 		n := rapid.IntRange(3, 22).Draw(t, "nops")
